@@ -240,6 +240,8 @@ type Bounds struct {
 	Trace func(string)
 	size  *sizeState
 	taint *taintState
+	// TaintFieldOK (optional) limits the struct fields through which Tainted follows a value.
+	TaintFieldOK func(*types.Var) bool
 
 	globalMemo map[bndGlobalKey]AV
 
